@@ -82,8 +82,18 @@ def add(ro, msg):
                 err = 'crash:ReturnedOtherObject'
         except Exception as e:  # noqa: BLE001
             err = err_name(e)
-    return {'err': err, 'warns': lib_warnings(w), 'ro': treejson.to_tree(ro.xml),
-            'completed_attr': bool(ro.completed)}
+    out = {'err': err, 'warns': lib_warnings(w), 'ro': treejson.to_tree(ro.xml),
+           'completed_attr': bool(ro.completed)}
+    if out['completed_attr'] or ro.xml.find('mosromgrmeta') is not None:
+        # a completed running order written out and read back
+        try:
+            with warnings.catch_warnings():
+                warnings.simplefilter('ignore')
+                back = MosFile.from_string(str(ro))
+            out['reread'] = {'cls': type(back).__name__, 'completed': bool(back.completed)}
+        except Exception as e:  # noqa: BLE001
+            out['reread'] = {'err': err_name(e)}
+    return out
 
 
 def add_texts(ro_text, msg_text):
